@@ -194,6 +194,131 @@ theorem blocksBetween_eq (bs : List (Blk α)) (z0 zl zu : Rat) (hc : Contig bs) 
     have : rabs (zu - zl - (zu - zl)) = 0 := by unfold rabs; simp
     rw [this]; exact not_lt.mpr (le_of_lt TOL_pos)
 
+/-- what the height check compares: for a window inside a well-formed assembly the expected height is `zu − zl`
+(no `NoSliver` hypothesis) -/
+private theorem blocksBetween_check (bs : List (Blk α)) (z0 zl zu : Rat) (hc : Contig bs) (h0 : StartsAt z0 bs)
+    (hlo : z0 ≤ zl) (hlt : zl < zu) (hhi : zu ≤ topOf z0 bs) :
+    blocksBetween bs zl zu =
+      if TOL < rabs ((((bs.filter (kept zl zu)).map (fun b => (b.v, heightHere zl zu b))).map (·.2)).sum - (zu - zl))
+      then none else some ((bs.filter (kept zl zu)).map (fun b => (b.v, heightHere zl zu b))) := by
+  have hne : bs ≠ [] := by
+    intro he; subst he; simp [topOf] at hhi; linarith
+  obtain ⟨bl, hbl, hbl1, hbl2⟩ := exists_block_at bs z0 zl hc h0 hne hlo (le_trans (le_of_lt hlt) hhi)
+  obtain ⟨bu, hbu, hbu1, hbu2⟩ := exists_block_at bs z0 zu hc h0 hne (le_trans hlo (le_of_lt hlt)) hhi
+  have hml : marked zl zu bl = true := by
+    unfold marked; simp only [Bool.and_eq_true, decide_eq_true_eq]; exact ⟨hbl2, by linarith⟩
+  have hmu : marked zl zu bu = true := by
+    unfold marked; simp only [Bool.and_eq_true, decide_eq_true_eq]; exact ⟨by linarith, hbu1⟩
+  unfold blocksBetween
+  simp only []
+  have hmem : ∀ b ∈ bs, marked zl zu b = true →
+      b.zb ∈ (bs.filter (marked zl zu)).flatMap (fun b => [b.zb, b.zt]) ∧
+      b.zt ∈ (bs.filter (marked zl zu)).flatMap (fun b => [b.zb, b.zt]) := by
+    intro b hb hm
+    constructor <;> (rw [List.mem_flatMap]; exact ⟨b, List.mem_filter.mpr ⟨hb, hm⟩, by simp⟩)
+  split
+  · next heq =>
+    have := (hmem bl hbl hml).1
+    rw [heq] at this; cases this
+  · next p ps heq =>
+    have hlo' : ps.foldl rmin p ≤ zl := by
+      have hm := (hmem bl hbl hml).1
+      rw [heq] at hm
+      obtain ⟨h1, h2⟩ := foldl_rmin_le ps p
+      rcases List.mem_cons.mp hm with he | hm
+      · rw [he] at hbl1; exact le_trans h1 hbl1
+      · exact le_trans (h2 _ hm) hbl1
+    have hhi' : zu ≤ ps.foldl rmax p := by
+      have hm := (hmem bu hbu hmu).2
+      rw [heq] at hm
+      obtain ⟨h1, h2⟩ := le_foldl_rmax ps p
+      rcases List.mem_cons.mp hm with he | hm
+      · rw [he] at hbu2; exact le_trans hbu2 h1
+      · exact le_trans hbu2 (h2 _ hm)
+    have hexp : rmin (ps.foldl rmax p - ps.foldl rmin p) (zu - zl) = zu - zl :=
+      rmin_eq_right _ _ (by linarith)
+    rw [hexp]
+
+/-- a block is reported exactly when it overlaps the window by more than `1e-10` of its height -/
+theorem kept_iff_above_filter (zl zu : Rat) (b : Blk α) (hw : b.zb < b.zt ∧ b.h = b.zt - b.zb) :
+    (kept zl zu b = true ↔ EPS < ovl zl zu b / b.h) ∧ (kept zl zu b = true → heightHere zl zu b = ovl zl zu b) := by
+  have hh : 0 < b.h := by rw [hw.2]; linarith
+  have key : kept zl zu b = true → 0 < heightHere zl zu b := by
+    intro hk
+    unfold kept at hk
+    simp only [Bool.and_eq_true, decide_eq_true_eq] at hk
+    have h1 : 0 < heightHere zl zu b / b.h := lt_trans EPS_pos hk.2
+    rcases div_pos_iff.mp h1 with ⟨h2, _⟩ | ⟨_, h3⟩
+    · exact h2
+    · linarith
+  refine ⟨⟨?_, ?_⟩, fun hk => (ovl_of_pos zl zu b (key hk)).symm⟩
+  · intro hk
+    rw [ovl_of_pos zl zu b (key hk)]
+    unfold kept at hk
+    simp only [Bool.and_eq_true, decide_eq_true_eq] at hk
+    exact hk.2
+  · intro hp
+    have hpos : 0 < ovl zl zu b := by
+      have : 0 < ovl zl zu b / b.h := lt_trans EPS_pos hp
+      rcases div_pos_iff.mp this with ⟨h2, _⟩ | ⟨_, h3⟩
+      · exact h2
+      · linarith
+    have hp' := (ovl_pos_iff zl zu b).mp hpos
+    rw [ovl_of_pos zl zu b hp'] at hp
+    unfold kept marked
+    simp only [Bool.and_eq_true, decide_eq_true_eq]
+    refine ⟨⟨?_, ?_⟩, hp⟩
+    · have := rmin_le_left b.zt zu; have := le_rmax_right b.zb zl
+      unfold heightHere at hp'; linarith
+    · have := rmin_le_right b.zt zu; have := le_rmax_left b.zb zl
+      unfold heightHere at hp'; linarith
+
+private theorem sum_filter_split {β : Type} (p : β → Bool) (g : β → Rat) (l : List β) :
+    (l.map g).sum = ((l.filter p).map g).sum + ((l.filter (fun x => !p x)).map g).sum := by
+  induction l with
+  | nil => simp
+  | cons a t ih =>
+    by_cases hp : p a = true
+    · simp [hp, ih]; ring
+    · simp [hp, ih]; ring
+
+/-- **exactly when the `1e-10` sliver filter changes the result** (no `NoSliver` hypothesis): for a window inside a
+well-formed assembly `getBlocksBetweenElevations` reports precisely the blocks that overlap the window by more than
+`1e-10` of their own height, each with its overlap length; the blocks it drops are the slivers
+`0 ≤ |b ∩ window| ≤ 1e-10·h_b`; the reported heights sum to `zu − zl` minus the dropped slivers; and the call raises
+exactly when the dropped slivers add up to more than `1e-5`. -/
+theorem blocksBetween_sliver_characterisation (bs : List (Blk α)) (z0 zl zu : Rat) (hc : Contig bs)
+    (h0 : StartsAt z0 bs) (hlo : z0 ≤ zl) (hlt : zl < zu) (hhi : zu ≤ topOf z0 bs) :
+    blocksBetween bs zl zu =
+      (if TOL < ((bs.filter (fun b => !kept zl zu b)).map (ovl zl zu)).sum then none
+       else some ((bs.filter (kept zl zu)).map (fun b => (b.v, ovl zl zu b)))) ∧
+    (∀ b ∈ bs, kept zl zu b = true ↔ EPS < ovl zl zu b / b.h) ∧
+    (((bs.filter (kept zl zu)).map (ovl zl zu)).sum
+      = (zu - zl) - ((bs.filter (fun b => !kept zl zu b)).map (ovl zl zu)).sum) := by
+  have hsplit := sum_filter_split (kept zl zu) (ovl zl zu) bs
+  rw [overlap_partition bs z0 zl zu (le_of_lt hlt) hc h0 hlo hhi] at hsplit
+  have hS : 0 ≤ ((bs.filter (fun b => !kept zl zu b)).map (ovl zl zu)).sum := by
+    apply List.sum_nonneg
+    intro x hx
+    obtain ⟨b, _, rfl⟩ := List.mem_map.mp hx
+    exact ovl_nonneg zl zu b
+  have hlist : (bs.filter (kept zl zu)).map (fun b => (b.v, heightHere zl zu b))
+      = (bs.filter (kept zl zu)).map (fun b => (b.v, ovl zl zu b)) := by
+    apply List.map_congr_left
+    intro b hb
+    obtain ⟨hb1, hb2⟩ := List.mem_filter.mp hb
+    rw [(kept_iff_above_filter zl zu b (hc.mem b hb1)).2 hb2]
+  refine ⟨?_, fun b hb => (kept_iff_above_filter zl zu b (hc.mem b hb)).1, by linarith⟩
+  rw [blocksBetween_check bs z0 zl zu hc h0 hlo hlt hhi, hlist, List.map_map]
+  have e : ((fun x : α × Rat => x.2) ∘ fun b : Blk α => (b.v, ovl zl zu b)) = ovl zl zu := rfl
+  rw [e]
+  have : rabs (((bs.filter (kept zl zu)).map (ovl zl zu)).sum - (zu - zl))
+      = ((bs.filter (fun b => !kept zl zu b)).map (ovl zl zu)).sum := by
+    have : ((bs.filter (kept zl zu)).map (ovl zl zu)).sum - (zu - zl)
+        = -((bs.filter (fun b => !kept zl zu b)).map (ovl zl zu)).sum := by linarith
+    rw [this]; unfold rabs; split_ifs <;> linarith
+  rw [this]
+
 /-- **The blocks reported between two elevations partition the interval**: the call succeeds, every
 reported overlap height is positive, and the heights sum to the length of the interval. -/
 theorem blocksBetween_partition (bs : List (Blk α)) (z0 zl zu : Rat) (hc : Contig bs) (h0 : StartsAt z0 bs)
